@@ -7,6 +7,7 @@
   `fix:` b018624: more than 32 accumulated values are delivered by follow-up `record` calls).
 -/
 import TT.Lemmas.RecvSim
+import TT.Lemmas.RecvRestore
 import TT.Props.C02
 
 namespace TT
@@ -29,12 +30,139 @@ def needsHost (σ : Sigma) : Event → Option Nat
   | .entered id => if σ.r.loc.contains id then none else some id
   | _ => none
 
+/-! ### Helper lemmas -/
+
+theorem rr_newCalls'_of_log (before after : Host) (pre : List HostCall)
+    (h : after.log = pre ++ before.log) : newCalls' before after = pre.reverse := by
+  unfold newCalls'
+  rw [h]
+  simp
+
+theorem rr_newCalls'_self (b a : Host) (h : a.log = b.log) : newCalls' b a = [] := by
+  have := rr_newCalls'_of_log b a [] (by simpa using h)
+  simpa using this
+
+theorem rr_newSpanIds_append (a b : List HostCall) :
+    newSpanIds (a ++ b) = newSpanIds a ++ newSpanIds b := by
+  unfold newSpanIds
+  rw [List.filterMap_append]
+
+theorem rr_newSpanIds_records (h : Nat) (cs : List RawVals) :
+    newSpanIds (cs.map (HostCall.record h)) = [] := by
+  induction cs with
+  | nil => rfl
+  | cons c cs ih =>
+    rw [List.map_cons]
+    show newSpanIds ([HostCall.record h c] ++ _) = []
+    rw [rr_newSpanIds_append, ih]
+    rfl
+
+theorem rr_specResults_allValid (ss : SpecSys) (ops : List HOp) (hv : allValid ss ops = true) :
+    ∀ r ∈ specResults ss ops, r = none := by
+  induction ops generalizing ss with
+  | nil => intro r hr; cases hr
+  | cons op ops ih =>
+    cases op with
+    | ev e =>
+      have hv' : ((ss.cur.invalid e).isEmpty && allValid (ss.step (.ev e)) ops) = true := hv
+      rw [Bool.and_eq_true] at hv'
+      intro r hr
+      have hr' : r ∈ ss.cur.verdict e :: specResults (ss.step (.ev e)) ops := hr
+      rw [List.mem_cons] at hr'
+      rcases hr' with hr' | hr'
+      · rw [hr']
+        unfold Spec.verdict
+        rw [List.isEmpty_iff.1 hv'.1]
+        rfl
+      · exact ih _ hv'.2 r hr'
+    | persist m => exact ih _ hv
+    | discard => exact ih _ hv
+
+/-- Shape of an accepted `entered`. -/
+theorem rr_entered_ok (σ σ' : Sigma) (id : Nat) (hok : tryReceive σ (.entered id) = .ok σ') :
+    (∃ h, σ.r.loc.get id = some h ∧
+      σ' = { r := { σ.r with entered := bumpEntered σ.r.entered id },
+             w := { σ.w with host := σ.w.host.emit (.enter h) } }) ∨
+    (∃ d w h, σ.r.loc.get id = none ∧ σ.r.spans.get id = some d ∧
+      createLocalSpan σ.r σ.w d = .ok w h ∧
+      σ' = { r := { σ.r with loc := σ.r.loc.insert id h, entered := bumpEntered σ.r.entered id },
+             w := { w with host := w.host.emit (.enter h) } }) := by
+  simp only [tryReceive, mapSpanId] at hok
+  cases hl : AMap.get σ.r.loc id with
+  | some h =>
+    left
+    simp only [hl, Res.ok.injEq] at hok
+    exact ⟨h, rfl, hok.symm⟩
+  | none =>
+    right
+    simp only [hl] at hok
+    split at hok
+    · cases hok
+    · next heq => split at heq <;> cases heq
+    · next heq =>
+      split at hok
+      · cases hok
+      · next d hd =>
+        split at hok
+        · cases hok
+        · cases hok
+        · next w h hc =>
+          simp only [Res.ok.injEq] at hok
+          exact ⟨d, w, h, rfl, hd, hc, hok.symm⟩
+
+/-- Shape of an accepted `newSpan`. -/
+theorem rr_newSpan_ok (σ σ' : Sigma) (id : Nat) (parent : Option Nat) (mt : Nat) (values : TVals)
+    (hok : tryReceive σ (.newSpan id parent mt values) = .ok σ') :
+    (σ.r.loc.contains id = true ∧ σ'.w = σ.w ∧ σ'.r.loc = σ.r.loc) ∨
+    (∃ w h, σ.r.loc.contains id = false ∧
+      createLocalSpan σ.r σ.w { mt, parent, refCount := 1, values } = .ok w h ∧
+      σ'.w = w ∧ σ'.r.loc = σ.r.loc.insert id h) := by
+  simp only [tryReceive] at hok
+  split at hok
+  · cases hok
+  · cases hc : AMap.contains σ.r.loc id with
+    | true =>
+      left
+      simp only [hc, if_true, Res.ok.injEq] at hok
+      subst hok
+      exact ⟨rfl, rfl, rfl⟩
+    | false =>
+      right
+      simp only [hc, Bool.false_eq_true, if_false] at hok
+      split at hok
+      · cases hok
+      · split at hok
+        · cases hok
+        · cases hok
+        · next w h hcl =>
+          simp only [Res.ok.injEq] at hok
+          subst hok
+          exact ⟨w, h, rfl, hcl, rfl, rfl⟩
+
+theorem rr_mapSpanId_ok {r : RState} {id : Nat} {l : Option Nat} (h : mapSpanId r id = .ok l) :
+    l = r.loc.get id := by
+  unfold mapSpanId at h
+  cases hl : AMap.get r.loc id with
+  | some x => simp only [hl, Except.ok.injEq] at h; exact h.symm
+  | none =>
+    simp only [hl] at h
+    split at h
+    · simp only [Except.ok.injEq] at h; exact h.symm
+    · cases h
+
+theorem rr_newSpanIds_created (hh idx : Nat) (p : HParent) (v : RawVals) (cs : List RawVals)
+    (tail : List HostCall) (ht : newSpanIds tail = []) :
+    newSpanIds ([HostCall.newSpan hh idx p v] ++ cs.map (HostCall.record hh) ++ tail) = [hh] := by
+  rw [rr_newSpanIds_append, rr_newSpanIds_append, rr_newSpanIds_records, ht]
+  rfl
+
 /-- Nothing is rejected: every event of a well-formed execution is accepted whatever happens to
     the local map at the cuts (kept, lost, new host, discard) — including `entered c` for a span
     `c` whose explicit parent was dropped before the restart. -/
 theorem C03_accepts (w₀ : World) (ops : List HOp) (hno : noReannounceFrom {} ops = true)
     (hv : allValid {} ops = true) : ∀ r ∈ results (Sys.init w₀) ops, r = none := by
-  sorry
+  rw [rr_results_spec (Inv.init w₀) ops hno]
+  exact rr_specResults_allValid {} ops hv
 
 /-- A host span is created exactly when the guest span has none in the local map (at its
     announcement or, after a restart, at its first enter), exactly one is created, and the local
@@ -42,19 +170,303 @@ theorem C03_accepts (w₀ : World) (ops : List HOp) (hno : noReannounceFrom {} o
 theorem C03_presented_iff_unmapped (σ σ' : Sigma) (e : Event) (h : tryReceive σ e = .ok σ') :
     newSpanIds (newCalls' σ.w.host σ'.w.host) = (match needsHost σ e with | some _ => [σ.w.host.next] | none => []) ∧
     ∀ g, needsHost σ e = some g → σ'.r.loc.get g = some σ.w.host.next := by
-  sorry
+  cases e with
+  | newCallSite id d =>
+    simp only [tryReceive, Res.ok.injEq] at h
+    subst h
+    refine ⟨?_, fun g hg => by simp [needsHost] at hg⟩
+    simp only [needsHost]
+    have hh : (onNewCallSite σ id d).w.host
+        = if (arenaAlloc σ.w.arena d).2.2 = true
+          then σ.w.host.emit (.register (arenaAlloc σ.w.arena d).2.1) else σ.w.host := rfl
+    rw [hh]
+    split
+    · rw [rr_newCalls'_of_log _ _ [.register (arenaAlloc σ.w.arena d).2.1] rfl]; rfl
+    · rw [rr_newCalls'_self _ _ rfl]; rfl
+  | newSpan id parent mt values =>
+    rcases rr_newSpan_ok σ σ' id parent mt values h with ⟨hc, hw, _⟩ | ⟨w, hh, hc, hcl, hw, hl⟩
+    · simp only [needsHost, hc, if_true]
+      refine ⟨?_, fun g hg => by cases hg⟩
+      rw [hw, rr_newCalls'_self _ _ rfl]; rfl
+    · obtain ⟨idx, _, hhe, hlog, _, _⟩ := rr_createLocalSpan_spec _ _ _ _ _ hcl
+      simp only [needsHost, hc, Bool.false_eq_true, if_false]
+      refine ⟨?_, ?_⟩
+      · rw [hw, rr_newCalls'_of_log _ _ _ hlog]
+        simp only [List.reverse_append, List.reverse_cons, List.reverse_reverse, List.reverse_nil,
+          List.nil_append]
+        rw [← hhe]
+        have := rr_newSpanIds_created hh idx
+          (rr_parent σ.r { mt := mt, parent := parent, refCount := 1, values := values })
+          (List.take maxValues (generateFields (siteOf σ.w idx) values))
+          (chunks maxValues (List.drop maxValues (generateFields (siteOf σ.w idx) values))) [] rfl
+        simpa using this
+      · intro g hg
+        simp only [Option.some.injEq] at hg
+        subst hg
+        rw [hl, AMap.get_insert, if_pos rfl, hhe]
+  | followsFrom id f =>
+    refine ⟨?_, fun g hg => by simp [needsHost] at hg⟩
+    simp only [needsHost]
+    simp only [tryReceive] at h
+    split at h
+    · cases h
+    · split at h
+      · cases h
+      · split at h
+        · simp only [Res.ok.injEq] at h
+          subst h
+          rw [rr_newCalls'_of_log _ _ [.follows _ _] rfl]; rfl
+        · simp only [Res.ok.injEq] at h
+          subst h
+          rw [rr_newCalls'_self _ _ rfl]; rfl
+  | entered id =>
+    rcases rr_entered_ok σ σ' id h with ⟨hh, hl, he⟩ | ⟨d, w, hh, hl, hs, hcl, he⟩
+    · have hc : AMap.contains σ.r.loc id = true := by rw [AMap.contains_eq, hl]; rfl
+      simp only [needsHost, hc, if_true]
+      refine ⟨?_, fun g hg => by cases hg⟩
+      subst he
+      rw [rr_newCalls'_of_log _ _ [.enter hh] rfl]; rfl
+    · have hc : AMap.contains σ.r.loc id = false := by rw [AMap.contains_eq, hl]; rfl
+      obtain ⟨idx, _, hhe, hlog, _, _⟩ := rr_createLocalSpan_spec _ _ _ _ _ hcl
+      simp only [needsHost, hc, Bool.false_eq_true, if_false]
+      subst he
+      refine ⟨?_, ?_⟩
+      · have hlog' : (w.host.emit (.enter hh)).log = (.enter hh ::
+            (((chunks maxValues ((generateFields (siteOf σ.w idx) d.values).drop maxValues)).map
+              (HostCall.record hh)).reverse
+            ++ [HostCall.newSpan hh idx (rr_parent σ.r d)
+              ((generateFields (siteOf σ.w idx) d.values).take maxValues)])) ++ σ.w.host.log := by
+          rw [rr_emit_log, hlog]; rfl
+        rw [rr_newCalls'_of_log _ _ _ hlog']
+        simp only [List.reverse_append, List.reverse_cons, List.reverse_reverse, List.reverse_nil,
+          List.nil_append]
+        rw [← hhe]
+        have := rr_newSpanIds_created hh idx (rr_parent σ.r d)
+          (List.take maxValues (generateFields (siteOf σ.w idx) d.values))
+          (chunks maxValues (List.drop maxValues (generateFields (siteOf σ.w idx) d.values)))
+          [.enter hh] rfl
+        simpa using this
+      · intro g hg
+        simp only [Option.some.injEq] at hg
+        subst hg
+        show AMap.get (AMap.insert σ.r.loc id hh) id = _
+        rw [AMap.get_insert, if_pos rfl, hhe]
+  | exited id =>
+    refine ⟨?_, fun g hg => by simp [needsHost] at hg⟩
+    simp only [needsHost]
+    simp only [tryReceive] at h
+    split at h
+    · cases h
+    · next l _ =>
+      simp only [Res.ok.injEq] at h
+      subst h
+      cases l with
+      | some x => rw [rr_newCalls'_of_log _ _ [.exit x] rfl]; rfl
+      | none => rw [rr_newCalls'_self _ _ rfl]; rfl
+  | cloned id =>
+    refine ⟨?_, fun g hg => by simp [needsHost] at hg⟩
+    simp only [needsHost]
+    simp only [tryReceive] at h
+    split at h
+    · cases h
+    · simp only [Res.ok.injEq] at h
+      subst h
+      rw [rr_newCalls'_self _ _ rfl]; rfl
+  | dropped id =>
+    refine ⟨?_, fun g hg => by simp [needsHost] at hg⟩
+    simp only [needsHost]
+    simp only [tryReceive] at h
+    split at h
+    · cases h
+    · split at h
+      · cases h
+      · split at h
+        · simp only [Res.ok.injEq] at h
+          subst h
+          rw [rr_newCalls'_self _ _ rfl]; rfl
+        · split at h
+          · simp only [Res.ok.injEq] at h
+            subst h
+            rw [rr_newCalls'_self _ _ rfl]; rfl
+          · next x _ =>
+            simp only [Res.ok.injEq] at h
+            subst h
+            rw [rr_newCalls'_of_log _ _ [.tryClose x] rfl]; rfl
+  | valuesRecorded id values =>
+    refine ⟨?_, fun g hg => by simp [needsHost] at hg⟩
+    simp only [needsHost]
+    simp only [tryReceive] at h
+    split at h
+    · cases h
+    · split at h
+      · cases h
+      · next l _ =>
+        cases l with
+        | none =>
+          simp only at h
+          split at h
+          · cases h
+          · simp only [Res.ok.injEq] at h
+            subst h
+            rw [rr_newCalls'_self _ _ rfl]; rfl
+        | some x =>
+          simp only at h
+          split at h
+          · next σ₁ hrec =>
+            have hσ₁ : ∃ v, σ₁ = { σ with w := { σ.w with host := σ.w.host.emit (.record x v) } } := by
+              split at hrec
+              · cases hrec
+              · split at hrec
+                · cases hrec
+                · split at hrec
+                  · cases hrec
+                  · next v _ =>
+                    simp only [Res.ok.injEq] at hrec
+                    exact ⟨v, hrec.symm⟩
+            obtain ⟨v, hv⟩ := hσ₁
+            subst hv
+            split at h
+            · cases h
+            · simp only [Res.ok.injEq] at h
+              subst h
+              rw [rr_newCalls'_of_log _ _ [.record x v] rfl]; rfl
+          · next hne => exact (hne _ h).elim
+  | newEvent mt parent values =>
+    refine ⟨?_, fun g hg => by simp [needsHost] at hg⟩
+    simp only [needsHost]
+    simp only [tryReceive] at h
+    split at h
+    · cases h
+    · split at h
+      · cases h
+      · split at h
+        · cases h
+        · split at h
+          · cases h
+          · simp only [Res.ok.injEq] at h
+            subst h
+            rw [rr_newCalls'_of_log _ _ [.event _ _ _] rfl]; rfl
 
 /-- Once presented, a guest span keeps its host span until its last handle is dropped: so within
     one epoch of the local map it is presented at most once, and no later than its first enter. -/
 theorem C03_loc_stable (σ σ' : Sigma) (e : Event) (g h : Nat) (hok : tryReceive σ e = .ok σ')
     (hl : σ.r.loc.get g = some h) :
     σ'.r.loc.get g = some h ∨ (e = .dropped g ∧ σ'.r.loc.get g = none) := by
-  sorry
+  cases e with
+  | newCallSite id d =>
+    simp only [tryReceive, Res.ok.injEq] at hok
+    subst hok
+    left; exact hl
+  | newSpan id parent mt values =>
+    rcases rr_newSpan_ok σ σ' id parent mt values hok with ⟨_, _, hl'⟩ | ⟨w, hh, hc, _, _, hl'⟩
+    · left; rw [hl']; exact hl
+    · left
+      rw [hl', AMap.get_insert]
+      have hne : ¬ g = id := by
+        intro e; subst e
+        rw [AMap.contains_eq, hl] at hc
+        cases hc
+      rw [if_neg hne]; exact hl
+  | followsFrom id f =>
+    left
+    simp only [tryReceive] at hok
+    split at hok
+    · cases hok
+    · split at hok
+      · cases hok
+      · split at hok <;> (simp only [Res.ok.injEq] at hok; subst hok; exact hl)
+  | entered id =>
+    left
+    rcases rr_entered_ok σ σ' id hok with ⟨hh, _, he⟩ | ⟨d, w, hh, hln, _, _, he⟩
+    · subst he; exact hl
+    · subst he
+      show AMap.get (AMap.insert σ.r.loc id hh) g = some h
+      rw [AMap.get_insert]
+      have hne : ¬ g = id := by
+        intro e; subst e
+        rw [hl] at hln
+        cases hln
+      rw [if_neg hne]; exact hl
+  | exited id =>
+    left
+    simp only [tryReceive] at hok
+    split at hok
+    · cases hok
+    · simp only [Res.ok.injEq] at hok; subst hok; exact hl
+  | cloned id =>
+    left
+    simp only [tryReceive] at hok
+    split at hok
+    · cases hok
+    · simp only [Res.ok.injEq] at hok; subst hok; exact hl
+  | dropped id =>
+    simp only [tryReceive] at hok
+    split at hok
+    · cases hok
+    · split at hok
+      · cases hok
+      · split at hok
+        · simp only [Res.ok.injEq] at hok; subst hok; left; exact hl
+        · split at hok
+          · simp only [Res.ok.injEq] at hok; subst hok; left; exact hl
+          · simp only [Res.ok.injEq] at hok
+            subst hok
+            show AMap.get (AMap.erase σ.r.loc id) g = some h ∨
+              (Event.dropped id = Event.dropped g ∧ AMap.get (AMap.erase σ.r.loc id) g = none)
+            rw [AMap.get_erase]
+            by_cases hg : g = id
+            · right; subst hg; simp
+            · left; rw [if_neg hg]; exact hl
+  | valuesRecorded id values =>
+    left
+    simp only [tryReceive] at hok
+    split at hok
+    · cases hok
+    · split at hok
+      · cases hok
+      · next l _ =>
+        split at hok
+        · next σ₁ hrec =>
+          have hσ₁ : σ₁.r = σ.r := by
+            split at hrec
+            · simp only [Res.ok.injEq] at hrec; subst hrec; rfl
+            · split at hrec
+              · cases hrec
+              · split at hrec
+                · cases hrec
+                · split at hrec
+                  · cases hrec
+                  · simp only [Res.ok.injEq] at hrec; subst hrec; rfl
+          split at hok
+          · cases hok
+          · simp only [Res.ok.injEq] at hok
+            subst hok
+            show AMap.get σ₁.r.loc g = some h
+            rw [hσ₁]; exact hl
+        · next hne => exact (hne _ hok).elim
+  | newEvent mt parent values =>
+    left
+    simp only [tryReceive] at hok
+    split at hok
+    · cases hok
+    · split at hok
+      · cases hok
+      · split at hok
+        · cases hok
+        · split at hok
+          · cases hok
+          · simp only [Res.ok.injEq] at hok; subst hok; exact hl
 
 /-- An accepted `entered` ends with entering the guest span's host span. -/
 theorem C03_enter_enters_presented (σ σ' : Sigma) (id : Nat) (hok : tryReceive σ (.entered id) = .ok σ') :
     ∃ h, σ'.r.loc.get id = some h ∧ σ'.w.host.log.head? = some (.enter h) := by
-  sorry
+  rcases rr_entered_ok σ σ' id hok with ⟨hh, hl, he⟩ | ⟨d, w, hh, hln, _, _, he⟩
+  · subst he
+    exact ⟨hh, hl, rfl⟩
+  · subst he
+    refine ⟨hh, ?_, rfl⟩
+    show AMap.get (AMap.insert σ.r.loc id hh) id = some hh
+    rw [AMap.get_insert, if_pos rfl]
 
 /-- Restored content: when a persisted span is re-created on its first enter, the host sees —
     in this order — `new_span` with the span's call site and the first 32 of its stored values
@@ -70,7 +482,27 @@ theorem C03_restored_content (σ σ' : Sigma) (id : Nat) (d : SpanData) (idx : N
       | none => .ctx
     newCalls' σ.w.host σ'.w.host =
       [.newSpan h idx parent (all.take maxValues)] ++ (chunks maxValues (all.drop maxValues)).map (.record h) ++ [.enter h] := by
-  sorry
+  intro h all parent
+  rcases rr_entered_ok σ σ' id hok with ⟨hh, hl', _⟩ | ⟨d', w, hh, _, hs', hcl, he⟩
+  · rw [hl] at hl'; cases hl'
+  · rw [hs] at hs'
+    cases hs'
+    obtain ⟨idx', hm', hhe, hlog, _, _⟩ := rr_createLocalSpan_spec _ _ _ _ _ hcl
+    rw [hm] at hm'
+    cases hm'
+    subst he
+    have hlog' : (w.host.emit (.enter hh)).log = (.enter hh ::
+        (((chunks maxValues ((generateFields (siteOf σ.w idx) d.values).drop maxValues)).map
+          (HostCall.record hh)).reverse
+        ++ [HostCall.newSpan hh idx (rr_parent σ.r d)
+          ((generateFields (siteOf σ.w idx) d.values).take maxValues)])) ++ σ.w.host.log := by
+      rw [rr_emit_log, hlog]; rfl
+    rw [rr_newCalls'_of_log _ _ _ hlog']
+    simp only [List.reverse_append, List.reverse_cons, List.reverse_reverse, List.reverse_nil,
+      List.nil_append]
+    subst hhe
+    simp only [h, all, parent, rr_parent, List.cons_append, List.nil_append]
+    first | done | rfl
 
 /-- The stored values are the latest value of every recorded field, and the call site is the
     announced one: corollary of the bookkeeping theorem, for any history. -/
@@ -79,7 +511,15 @@ theorem C03_restored_values_are_latest (w₀ : World) (ops : List HOp) (hno : no
     (runSpec {} ops).cur.alive.get id = some d ∧
     ∃ idx, (runHistory (Sys.init w₀) ops).σ.r.mt.get d.mt = some idx ∧
       (runSpec {} ops).cur.known.get d.mt = some (siteOf (runHistory (Sys.init w₀) ops).σ.w idx) := by
-  sorry
+  have hinv := ((Inv.init w₀).run ops hno).1
+  have ha : (runSpec {} ops).cur.alive.get id = some d := by
+    rw [← hinv.spansEq id]; exact hs
+  refine ⟨ha, ?_⟩
+  obtain ⟨idx, hidx⟩ := hinv.alive_known id d hs
+  refine ⟨idx, hidx, ?_⟩
+  have := hinv.mtok.get d.mt
+  rw [hidx] at this
+  exact this.symm
 
 /-- Events attach: an explicit parent is mapped through the local map; a contextual event is
     dispatched as contextual without touching the host's span stack, i.e. inside whatever host span
@@ -89,12 +529,52 @@ theorem C03_event_parent (σ σ' : Sigma) (mt : Nat) (p : Option Nat) (vs : TVal
     ∃ idx v, σ'.w.host.log = .event idx (match p.bind (σ.r.loc.get ·) with
         | some h => .explicit h
         | none => .ctx) v :: σ.w.host.log ∧ σ'.w.host.stack = σ.w.host.stack := by
-  sorry
+  simp only [tryReceive] at hok
+  split at hok
+  · cases hok
+  · split at hok
+    · cases hok
+    · next idx _ =>
+      split at hok
+      · cases hok
+      · next v _ =>
+        split at hok
+        · cases hok
+        · next ph hmap =>
+          simp only [Res.ok.injEq] at hok
+          subst hok
+          refine ⟨idx, v, ?_, rfl⟩
+          have hph : ph = p.bind (σ.r.loc.get ·) := by
+            cases p with
+            | none => simp only [Except.ok.injEq] at hmap; exact hmap.symm
+            | some q => exact rr_mapSpanId_ok hmap
+          subst hph
+          rfl
 
 theorem C03_entered_is_current (σ σ' : Sigma) (id h : Nat) (hok : tryReceive σ (.entered id) = .ok σ')
     (hl : σ'.r.loc.get id = some h) (hfresh : ∀ e ∈ σ.w.host.stack, e.1 ≠ h) :
     stackCurrent σ'.w.host.stack = some h := by
-  sorry
+  have hany : (σ.w.host.stack.any (·.1 == h)) = false := by
+    rw [List.any_eq_false]
+    intro x hx
+    simpa using hfresh x hx
+  have hcur : stackCurrent (stackPush σ.w.host.stack h) = some h := by
+    unfold stackPush
+    rw [hany]
+    rfl
+  rcases rr_entered_ok σ σ' id hok with ⟨hh, hl', he⟩ | ⟨d, w, hh, _, _, hcl, he⟩
+  · subst he
+    rw [hl'] at hl
+    cases hl
+    exact hcur
+  · obtain ⟨_, _, _, _, hst, _⟩ := rr_createLocalSpan_spec _ _ _ _ _ hcl
+    subst he
+    have : AMap.get (AMap.insert σ.r.loc id hh) id = some h := hl
+    rw [AMap.get_insert, if_pos rfl] at this
+    have hhe : hh = h := Option.some.inj this
+    show stackCurrent (stackPush w.host.stack hh) = some h
+    rw [hst, hhe]
+    exact hcur
 
 /-- The persisted state at the end equals that of a run without restart: two histories with the
     same events, whatever the cut positions and modes (kept, lost, new host), persist the same
